@@ -114,8 +114,9 @@ CLASSES = {
     },
 }
 
-ANY_ATTRS = {}
-ANY_METHODS = {}
+# attribute / method access on statically untyped values (e.g. elements of a locally built list): node vocabulary
+ANY_ATTRS = dict(NODE_ATTRS)
+ANY_METHODS = dict(NODE_METHODS)
 OPAQUE = {}
 
 
